@@ -105,7 +105,9 @@ func confirmHang(done <-chan struct{}) bool {
 		default:
 		}
 	}
-	atomic.AddInt32(&confirmedHangs, 1)
+	if atomic.AddInt32(&confirmedHangs, 1) >= 8 && currentRun != nil {
+		currentRun.ForceSaturation()
+	}
 	return true
 }
 
